@@ -22,7 +22,7 @@ def truncated_files(chk, tier):
     vdir.mkdir()
     nsmall = 0
     small = sorted((f for f in files if f.stat().st_size <= 20000), key=lambda f: f.stat().st_size)
-    for f, v, b in tlc_variants(work, small[: (3 if tier == "quick" else 40)], "defblocks", 4, chk.seed, maxsize=20000):
+    for f, v, b in tlc_variants(work, small[: (3 if tier == "quick" else 10)], "defblocks", 4, chk.seed, maxsize=20000):
         p = vdir / f"{f.stem}_d{v}.cdns"
         p.write_bytes(b)
         files.append(p)
@@ -45,10 +45,11 @@ def truncated_files(chk, tier):
             for d in range(-2, 3):
                 if 0 <= b + d <= n:
                     cuts.add(b + d)
-        for _ in range(12 if tier == "quick" else 500):
+        for _ in range(12 if tier == "quick" else 120):
             cuts.add(rng.randrange(0, n + 1))
         if n < 4000:
-            cuts.update(range(0, n + 1, 1 if tier == "thorough" else 7))
+            # (thorough: every byte of the smaller files; the volume of traces is bounded - an earlier version wrote > 40 GB)
+            cuts.update(range(0, n + 1, 1 if tier == "thorough" and n < 1500 else 3 if tier == "thorough" else 7))
         for c in sorted(cuts):
             p = cdir / f"{f.stem}_c{c}.cdns"
             p.write_bytes(data[:c])
